@@ -23,6 +23,27 @@ RULE = ("one program = one generated script with 0..3 @subqap functions called 1
 PREAMBLE = r'''
 import json, sys, atexit
 sys.set_int_max_str_digits(0)
+PROBES = {"sets": 0, "neighbours": 0, "collisions": []}
+atexit.register(lambda: json.dump(PROBES, open("probes.json", "w")))     # registered first = runs after the library's own exit hook
+def _neighbours(lines):
+    """equation sets that differ from `lines` in exactly one line: two adjacent tokens re-split at another place, one digit
+    changed, one token dropped"""
+    out = []
+    for li, ln in enumerate(lines[:40]):
+        toks = ln.split(" ")
+        for i in range(len(toks) - 1):
+            joined = toks[i] + toks[i + 1]
+            for k in range(1, len(joined)):
+                if k != len(toks[i]):
+                    out.append((li, " ".join(toks[:i] + [joined[:k], joined[k:]] + toks[i + 2:])))
+                    break
+        for i, t in enumerate(toks):
+            if t.isdigit():
+                out.append((li, " ".join(toks[:i] + [str(int(t) + 1)] + toks[i + 1:])))
+                break
+        if len(toks) > 3:
+            out.append((li, " ".join(toks[:-1])))
+    return out[:120]
 import pysnark.qaptools.backend as qb
 LOG = []
 CALLS = []
@@ -41,6 +62,20 @@ def pubval(val):
     LOG.append(["pub", qb.vc_ctx, int(val), _lc(r)])
     return r
 qb.add_constraint, qb.privval, qb.pubval = add_constraint, privval, pubval
+import pysnark.qaptools.qapsplit as _qs
+_qh = _qs.qaphash
+def _qaphash(q):
+    q = list(q)
+    d = _qh(q)
+    PROBES["sets"] += 1
+    for li, nl in _neighbours(q):
+        if nl == q[li]:
+            continue
+        PROBES["neighbours"] += 1
+        if _qh(q[:li] + [nl] + q[li + 1:]) == d and len(PROBES["collisions"]) < 5:
+            PROBES["collisions"].append([q[li], nl, d])
+    return d
+_qs.qaphash = _qaphash
 import pysnark.runtime as rt
 rt.bitlength = 40
 from pysnark.runtime import PrivVal, PubVal, LinComb
@@ -203,6 +238,7 @@ def main():
     jobs = [dict(seed="%d/%s/%d" % (common.seed(), PROP, s), n=n) for s in range(nshards)]
     R = common.Run(PROP, "translation_validation", RULE)
     digests = {}
+    boot.spread_pyflags(jobs)
     for job, res, err in shard.run_jobs("vf.checks.C12", "worker", jobs, timeout=3600, nproc=16):
         if err:
             R.inconc("worker %s: %s" % (job["seed"], err))
@@ -221,12 +257,15 @@ def main():
     R.assumptions = ["external qaptools binaries are absent: failing stubs make the proving step stop after pysnark has written all of its own files",
                      "blinding wires (*/delta?, */rnd?_*) are random and excluded from value comparisons"]
     return R.finish(require_counters=("programs_validated", "equations_evaluated", "glue_blocks_checked", "traced_equations_matched",
-                                      "public_values_checked", "function_files_compared"))
+                                      "public_values_checked", "function_files_compared", "signature_neighbours_probed"))
 
 
 def worker(job):
     from vf.decode import qap
     R = common.Run(PROP, "translation_validation", RULE)
+    import sys as _sys
+    if _sys.flags.optimize:
+        R.count("workers_under_python_O%s" % ("O" if _sys.flags.optimize > 1 else ""))
     rnd = random.Random(job["seed"])
     home = os.getcwd()
     digests = []
@@ -238,7 +277,7 @@ def worker(job):
             open(os.path.join(wd, "prog.py"), "w").write(PREAMBLE + src)
             env = boot.child_env({"PYSNARK_BACKEND": "qaptools", "QAPTOOLS_BIN": os.path.join(boot.SHIMS, "qaptools_bin"),
                                   "PYSNARK_KEYDIR": os.path.join(wd, "keys")})
-            pr = subprocess.run([boot.PY, "prog.py"], cwd=wd, env=env, stdout=subprocess.PIPE, stderr=subprocess.PIPE, timeout=300)
+            pr = subprocess.run([boot.PY] + boot.pyflags() + ["prog.py"], cwd=wd, env=env, stdout=subprocess.PIPE, stderr=subprocess.PIPE, timeout=300)
             err = pr.stderr.decode(errors="replace")
             if not os.path.exists(os.path.join(wd, "log.json")):
                 R.count("script_raised_before_end")
@@ -260,6 +299,16 @@ def validate(R, qap, wd, src, cell, err, rc, digests):
     log = json.load(open(os.path.join(wd, "log.json")))
     det = dict(src=src, stderr_tail=err[-600:])
     problems = []
+    try:
+        probes = json.load(open(os.path.join(wd, "probes.json")))
+    except (OSError, ValueError):
+        probes = None
+    if probes is not None:
+        # the signature function as the splitter called it, probed online on near-miss neighbours of each real equation set
+        R.count("signatures_computed", probes["sets"])
+        R.count("signature_neighbours_probed", probes["neighbours"])
+        for a, b, d in probes["collisions"]:
+            R.violation("signature-collision", "equation sets differing in one line (%r vs %r) have the same signature %s" % (a[:80], b[:80], d), **det)
 
     def rd(fn):
         try:
